@@ -82,10 +82,11 @@ fn leaf_full(i: u64) -> E {
         8 => num(1e308),
         9 => num(-0.0),
         10 => num(5e-324),
+        11 => E::Sr,
         _ => unreachable!(),
     }
 }
-const NLF: u64 = 11;
+const NLF: u64 = 12;
 fn leaf_small(i: u64) -> E {
     match i {
         0 => var(DSP_IN),
@@ -224,11 +225,13 @@ fn helper(name: &str, s: &mut Sites) -> Item {
         ),
         "br" => fdef("br", &["p"], iff(p(), call("cnt", vec![num(1.0)], s.next()), num(0.0)), Shape::F),
         "pure" => fdef("pure", &["p"], bin("*", p(), num(2.0)), Shape::F),
+        // phasor: reads the sample rate on the dsp path
+        "ph" => fdef("ph", &["p"], bin("%", bin("+", E::SelfV, bin("/", bin("*", bin("+", p(), num(1.0)), num(4800.0)), E::Sr)), num(1.0)), Shape::F),
         "deep" => fdef("deep", &["p"], bin("+", call("nest", vec![p()], s.next()), E::Mem(Box::new(p()), s.next())), Shape::F),
         _ => unreachable!("{name}"),
     }
 }
-const FS_HELPERS: [&str; 11] = ["cnt", "cnt2", "m", "dS", "dL", "two", "nest", "nestd", "br", "pure", "deep"];
+const FS_HELPERS: [&str; 12] = ["cnt", "cnt2", "m", "dS", "dL", "two", "nest", "nestd", "br", "pure", "deep", "ph"];
 fn helper_deps(name: &str) -> &'static [&'static str] {
     match name {
         "nest" | "nestd" | "br" => &["cnt"],
